@@ -179,7 +179,16 @@ class Run(c15.Run):
                   latency=desc.get('latency', 0.0), jitter=desc.get('jitter', 0.0))
         self.w = w
         lan = w.new_network('lan')
-        self.dev = VlanStack(w, stack_cfg('dev', 20, 'server', retries=2, tout=2000, tseg=500), lan, app_class=DevApp)
+        self.direct = desc['mode'] == 'direct'
+        if self.direct:
+            # direct property access: no stacks needed, only an application to hold the object
+            from bacpypes.app import Application
+            from ..stacks import make_device
+            self.dev = None
+            self._app = Application(make_device({'name': 'dev', 'addr': 20}))
+        else:
+            self.dev = VlanStack(w, stack_cfg('dev', 20, 'server', retries=2, tout=2000, tseg=500), lan, app_class=DevApp)
+            self._app = self.dev.app
         cls = get_class(desc['cls'])
         kind, dom = CLASSES[desc['cls']]
         kwargs = {'objectIdentifier': (cls.objectType, 1), 'objectName': 'cmd'}
@@ -193,11 +202,14 @@ class Run(c15.Run):
         self.construct_error = None
         try:
             self.obj = cls(**kwargs)
-            self.dev.app.add_object(self.obj)
+            self._app.add_object(self.obj)
         except Exception as e:
             self.obj = None
             self.construct_error = repr(e)
         self.objid = (cls.objectType, 1)
+        self.direct_log = []
+        if self.direct:
+            return
         smap = self.dev.smap
         orig = smap.sap_confirmation
 
@@ -536,8 +548,11 @@ def units(tier, seed):
         n = 500
     else:
         for c in names:
-            for rem in range(4):
-                us.append({'kind': 'enum', 'must': True, 'cls': c, 'length': 3, 'mod': 4, 'rem': rem})
+            for rem in range(16):
+                us.append({'kind': 'enum', 'must': True, 'cls': c, 'length': 4, 'mod': 16, 'rem': rem})
+        for c in ('AnalogValueCmdObject', 'BinaryValueCmdObject'):
+            for rem in range(64):
+                us.append({'kind': 'enum', 'must': True, 'cls': c, 'length': 5, 'mod': 64, 'rem': rem})
         n = 8000
     for k in range(n):
         us.append({'kind': 'explore', 'seed': seed, 'start': k * 20, 'count': 20})
@@ -566,5 +581,5 @@ def evidence(tier, seed, total):
         'assumptions': ['the 16-slot reference model and its slot-6 timer model are correct', 'a write without priority counts as priority 16',
                         'priority 6 is not commanded on binary objects with minimum times (reserved by the standard for that mechanism)',
                         'binary objects with a minimum time are constructed with an explicit present value, as the library requires',
-                        'bounded enumeration (length 2-3) is shorter than the property text (length 5)'],
+                        'exhaustive enumeration: length 2 (quick), length 4 for all 20 classes and length 5 for the analog-value and binary-value classes (thorough)'],
     }
